@@ -889,6 +889,7 @@ class ExtendedZoneProcessor: public ZoneProcessor {
       mYear = year;
       mNumMatches = 0; // clear cache
       mTransitionStorage.init();
+      mIsFilled = false;
 
       if (year < mZoneInfo.startYear() - 1 || mZoneInfo.untilYear() < year) {
         if (ACE_TIME_EXTENDED_ZONE_PROCESSOR_DEBUG) {
